@@ -44,6 +44,24 @@ struct AI_ : state_machine_def<AI_> {
 };
 typedef BE<AI_> AI;
 #endif
+// a Defer action INSIDE a submachine that is only ever driven through its parent: the occurrence lives in the submachine's own pool and must
+// be re-offered once the submachine reaches a state that handles it (C05, backmp11: every machine has its own deferral cycle counter)
+#if IS_MP11
+struct T {};
+struct DS_ : state_machine_def<DS_> {
+  struct SA : state<> {}; struct SB : state<> {};
+  typedef SA initial_state;
+  struct transition_table : mpl::vector< Row<SA,E,none,Defer,none>, Row<SA,T,none,none,none>, Row<SA,G,SB,none,none>, Row<SB,E,none,LogE,none> > {};
+  template<class Fsm,class Ev> void no_transition(Ev const&,Fsm&,int){ ++g_nt; }
+};
+typedef BE<DS_> DS;
+struct DR_ : state_machine_def<DR_> {
+  typedef DS initial_state;
+  struct transition_table : mpl::vector<> {};
+  template<class Fsm,class Ev> void no_transition(Ev const&,Fsm&,int){ ++g_nt; }
+};
+typedef BE<DR_> DR;
+#endif
 static std::string vs(const std::vector<int>& v){ std::string s; for (int x : v) s += std::to_string(x) + " "; return s; }
 int main(int argc, char** argv) {
   if (argc > 1) g_only = argv[1];
@@ -80,6 +98,12 @@ int main(int argc, char** argv) {
     bool held = g_seen.empty() && g_nt == 0;
     m.process_event(G());
     report("internal-row-defer.retained-and-re-offered", held && g_nt == 0 && g_seen.size() == 1 && g_seen[0] == 1 && (r & 4), "C14,C05", "ret=" + std::to_string(r) + " seen=[" + vs(g_seen) + "] nt=" + std::to_string(g_nt)); }
+#endif
+#if IS_MP11
+  { DR m; m.start(); g_seen.clear(); g_nt = 0; m.process_event(E(1)); m.process_event(T()); bool held = g_seen.empty();
+    m.process_event(G()); bool reoffered = g_seen.size() == 1 && g_seen[0] == 1;
+    m.process_event(E(2));
+    report("submachine-action-defer.re-offered-when-handled-there", held && reoffered && g_seen.size() == 2 && g_seen[1] == 2 && g_nt == 0, "C05,C07", "seen=[" + vs(g_seen) + "] nt=" + std::to_string(g_nt)); }
 #endif
   return finish();
 }
